@@ -52,6 +52,11 @@ ENVELOPE_NAMES = ["S", "MY_SCHEMA", "Doc1", "SESSION_LOG", "INFERRED", "UNKNOWN"
 TYPE_SOURCES = ["PROTOCOL_DEFINITION", "SESSION_LOG", "T", "lower_case", '"My Type"', '"a\\"b"', '"a\\"b\\\\c"', '"back\\\\slash"', '"a\\nb"',
                 '"Review \\"draft\\" log"', '"LINE1\\nLINE2"', '"tab\\there"', '" lead"', '"trail "', '"été \\"x\\""', '"名前"', '"a\\n\\nb\\n"',
                 '"\\n"', '"==="', '"x # y"', "42", "true"]
+# META TYPE values that are NOT a str (repo 61337a1: each names the schema UNKNOWN, like a missing TYPE): number, float,
+# negative, boolean, null, list, empty list, inline map, holographic value, nested block (":BLOCK" = TYPE: + indented children)
+NONSTRING_TYPE_SOURCES = ["42", "1.5", "-7", "true", "false", "null", "[a,b]", "[]", "[a::1,b::2]", '["x"∧REQ→§SELF]', '["x"∧ENUM[A,B]]',
+                          ":BLOCK"]
+TYPE_SOURCES += [t for t in NONSTRING_TYPE_SOURCES if t not in TYPE_SOURCES]
 EXTRA_META_KEYS = ["NAME", "SCHEMA", "SCHEMA_NAME", "ID", "TITLE", "DOC", "STATUS"]
 REGEX_POOL = [
     "abc", "^abc$", "^[a-z]+$", "[a-z]+", "[A-Z]", "[a-z]*", "[0-9a-f]+", "^[A-Z][a-z]+$", "[a-z]+[0-9]*",
@@ -186,8 +191,8 @@ def nameq_tok(q):
     kind, v = q
     if kind == "doc":
         return "docname " + ("~" if v is None else enc_str(v))
-    if kind == "meta":
-        return "metaname " + ("~" if v is None else enc_str(v))
+    if kind == "meta":       # v: ("absent",) | ("str", text) | ("other", python type name)
+        return "metaname " + ("~" if v[0] == "absent" else ("S:" + enc_str(v[1])) if v[0] == "str" else "O")
     return None
 
 
@@ -198,7 +203,9 @@ def document_text(env_name, type_src, contract_specs, fields, extra_meta=(), wit
         lines.append(f"==={env_name}===")
     if with_meta:
         lines.append("META:")
-        if type_src is not None:
+        if type_src == ":BLOCK":
+            lines += ["  TYPE:", "    A::1", '    B::"x"']
+        elif type_src is not None:
             lines.append(f"  TYPE::{type_src}")
         lines.append('  VERSION::"1.0"')
         for k, v in extra_meta:
@@ -220,23 +227,29 @@ def contract_specs_of(fields):
 
 
 def schema_from_meta(meta):
-    """The SchemaDefinition compile_gbnf_from_meta builds (same calls, same order)."""
-    from octave_mcp.core.gbnf_compiler import _extract_contract_field_specs, parse_contract_field
-    from octave_mcp.core.holographic import HolographicPattern
-    from octave_mcp.core.schema_extractor import FieldDefinition, SchemaDefinition
-    schema = SchemaDefinition(name=meta.get("TYPE", "UNKNOWN"), version=str(meta.get("VERSION", "1.0")))
+    """The SchemaDefinition compile_gbnf_from_meta builds, CAPTURED from the implementation (compile_schema is wrapped for the
+    duration of one call), and the CONTRACT field specs.  schema is None when the call raises before compile_schema."""
+    from octave_mcp.core import gbnf_compiler as G
+    got = {}
+    orig = G.GBNFCompiler.compile_schema
+
+    def spy(self, schema, include_envelope=False):
+        got.setdefault("schema", schema)
+        return orig(self, schema, include_envelope=include_envelope)
+
+    G.GBNFCompiler.compile_schema = spy
+    try:
+        try:
+            G.compile_gbnf_from_meta(meta)
+        except Exception:  # noqa -- the caller runs the real call again and records what it raises
+            pass
+    finally:
+        G.GBNFCompiler.compile_schema = orig
     specs = []
     contract = meta.get("CONTRACT")
     if contract:
-        specs = _extract_contract_field_specs(contract)
-        for spec in specs:
-            try:
-                fname, cons = parse_contract_field(spec)
-            except ValueError:
-                continue
-            schema.fields[fname] = FieldDefinition(name=fname, pattern=HolographicPattern(example=None, constraints=cons, target=None),
-                                                   raw_value=spec)
-    return schema, specs
+        specs = G._extract_contract_field_specs(contract)
+    return got.get("schema"), specs
 
 
 # ---------------------------------------------------------------------------------------------------------
@@ -568,7 +581,7 @@ def check_texts(ctx, have_model, records):
     if have_model:
         qs = sorted({r["nameq"] for r in records if r.get("nameq") and r["nameq"][0] != "raw"}, key=repr)
         res = run_driver("gbnf", [nameq_tok(q) for q in qs]) if qs else []
-        mname = {q: dec_str(x) for q, x in zip(qs, res)}
+        mname = {q: (None if x == "NONE" else dec_str(x)) for q, x in zip(qs, res)}
         seen_name_diff = set()
         for r in records:
             q = r.get("nameq")
@@ -576,9 +589,14 @@ def check_texts(ctx, have_model, records):
                 r["schema_enc"] = None
                 continue
             name = q[1] if q[0] == "raw" else mname[q]
+            if name is None:          # the model says: the compiler raises on this META TYPE (tree without the isinstance guard)
+                r["schema_enc"] = None
+                ctx.correspondence_failure({"case": r["case"], "surface": r["surface"], "route": repr(q)},
+                                           "a grammar was returned on a route for which the model predicts that the compiler raises")
+                continue
             r["model_name"] = name
             r["schema_enc"] = enc_named(name, r["fenc"])
-            ctx.hist("name_route", q[0] + ("" if q[0] == "raw" else (":absent" if q[1] is None else ":given")))
+            ctx.hist("name_route", q[0] if q[0] == "raw" else q[0] + (":" + q[1][0] if q[0] == "meta" else (":absent" if q[1] is None else ":given")))
             if "impl_name" in r and r["impl_name"] != name and (q, repr(r["impl_name"])) not in seen_name_diff:
                 seen_name_diff.add((q, repr(r["impl_name"])))
                 ctx.correspondence_failure({"case": r["case"], "surface": r["surface"], "route": list(q),
@@ -714,16 +732,21 @@ def run(ctx):
         q_m = schema_m = fenc_m = None
         specs = []
         if d.meta:
-            ty = d.meta["TYPE"] if "TYPE" in d.meta else None
-            q_m = ("meta", ty) if (ty is None or isinstance(ty, str)) else None
-            if q_m is None:
-                ctx.hist("out_of_model", "META TYPE is " + type(ty).__name__)
+            if "TYPE" not in d.meta:
+                q_m = ("meta", ("absent",))
+            elif isinstance(d.meta["TYPE"], str):
+                q_m = ("meta", ("str", d.meta["TYPE"]))
+            else:
+                q_m = ("meta", ("other", type(d.meta["TYPE"]).__name__))
+            ctx.hist("meta_type_kind", q_m[1][0] if q_m[1][0] != "other" else "other:" + q_m[1][1])
             try:
                 schema_m, specs = schema_from_meta(d.meta)
-                fenc_m = enc_fields(schema_m)
+                fenc_m = enc_fields(schema_m) if schema_m is not None else None
             except Exception as e:
                 ctx.hist("compile_raised", type(e).__name__)
                 schema_m, specs, fenc_m = None, [], None
+            if schema_m is None:
+                ctx.hist("compile_raised", "compile_gbnf_from_meta before compile_schema")
             # CONTRACT spec splitting: model of parse_contract_field vs implementation
             if have_model and specs:
                 from octave_mcp.core.gbnf_compiler import _CONTRACT_FIELD_PATTERN
@@ -851,7 +874,10 @@ def run(ctx):
         # grammar is well-formed for the reference parser (independent of the Coq build), and the names are read back
         for fn, w, a, b in must:
             got = {r["surface"] for r in records[a:b]}
-            missing = sorted(MUST_SURFACES[w["route"]] - got)
+            want = set(MUST_SURFACES[w["route"]])
+            if w["route"] == "DOCUMENT" and w.get("with_meta", True):
+                want |= {"compile_gbnf_from_meta", "compile_document_grammar", S_M % True, S_M % False}
+            missing = sorted(want - got)
             if missing:
                 ctx.property_failure({"corpus": fn, "input": w, "surfaces_without_grammar": missing},
                                      "must-pass regression: no grammar returned by " + ", ".join(missing))
